@@ -36,10 +36,10 @@ PROPS = {
         "not_decided": "that the bytes of other streams are untouched (sector ownership is value-level); validity of a handle after its own stream is removed",
     },
     "C06": {
-        "rules": [rules_io.flushfirst, rules_io.window, rules_api.errkind("C06")],
+        "rules": [rules_io.flushfirst, rules_io.window, rules_io.posdim, rules_api.errkind("C06")],
         "explanation": "Cache-protocol clauses of the hand-written stream buffer, decided as path properties over the MIR of every Stream method: "
                        "R-FLUSHFIRST (every window move - store to buf_offset_from_start, StreamBuffer::clear, refill_with - is preceded on every path by the ok successor of flush_changes, with no mark_modified in between) and "
-                       "R-WINDOW (after the window offset is stored, every path to any return, error exits included, passes clear or a successful refill).",
+                       "R-WINDOW (after the window offset is stored, every path to any return, error exits included, passes clear or a successful refill), R-POSDIM (every value stored as window offset or stream length is a stream position - old offset + buffer-relative amount, current_position(), or a validated absolute target - never a bare buffer cursor), R-ERRKIND rows (the five out-of-range seeks are InvalidInput).",
         "not_decided": "equality with a byte vector for all call sequences and buffer sizes (values of pos/cap/offset/total_len across histories); set_len near u64::MAX",
     },
     "C08": {
